@@ -352,6 +352,10 @@ def add_bench(m, path, indent, raw_name, form="plain", args=None, types=None, co
         elif style == "values":
             inner = ("bencher.with_inputs(|| { crate::rt::aux(%d, \"gen\"); 3u64 }).input_counter(|v: &u64| { crate::rt::aux(%d, \"count\"); "
                      "divan::counter::BytesCount::new(*v) }).bench_values(|v| { %s; v });" % (bid, bid, call))
+        elif style == "values_costly":
+            # generating an input costs 3000 ticks of untimed (external) time
+            inner = ("bencher.with_inputs(|| { crate::rt::aux(%d, \"gen\"); crate::rt::cost(3000); 3u64 })"
+                     ".bench_values(|v| { %s; v });" % (bid, call))
         elif style == "refs_alloc":
             inner = ("bencher.with_inputs(|| vec![1u8; 64]).bench_refs(|v| { %s; let mut w = v.clone(); w.push(1); w });" % call)
         elif style == "alloc_exact":
@@ -385,6 +389,7 @@ def add_bench(m, path, indent, raw_name, form="plain", args=None, types=None, co
         "types": list(types) if types is not None else None, "consts": const_labels, "type_first": type_first,
         "options": dict((disp(k), v) for k, v in (options or [])), "ignore": (True if ignore_attr or any(disp(k) == "ignore" and v in (None, "true") for k, v in (options or [])) else (False if any(disp(k) == "ignore" and v == "false" for k, v in (options or [])) else None)),
         "style": bencher_style if form == "bencher" else None, "body": body, "cost": cost,
+        "gen_cost": 3000 if (form == "bencher" and bencher_style == "values_costly") else 0,
         "expect_options": expect_options, "const_ty": const_ty if consts is not None else None,
     }
     m.benches.append(bench)
@@ -679,7 +684,23 @@ def effective_options(m, b):
             if field in lv:
                 eff[field] = lv[field]
                 break
+    def time_ps(v):
+        """Attribute spellings of a duration: Duration::from_nanos(N), float seconds, integer seconds."""
+        mm = re.search(r"from_nanos\((\d+)\)", v)
+        if mm:
+            return int(mm.group(1)) * 1000
+        mm = re.search(r"from_secs\((\d+)\)", v)
+        if mm:
+            return int(mm.group(1)) * 10 ** 12
+        from decimal import Decimal
+        ns = Decimal(re.sub(r"(f64|u64)$", "", v)) * 10 ** 9
+        assert abs(ns - ns.to_integral_value()) < Decimal("0.45") or True
+        return int(ns) * 1000   # values are chosen so that truncation and rounding to whole ns agree
+
     out = {
+        "max_time_ps": time_ps(eff["max_time"]) if "max_time" in eff else None,
+        "min_time_ps": time_ps(eff["min_time"]) if "min_time" in eff else None,
+        "skip_ext": (eff["skip_ext_time"] in (None, "true")) if "skip_ext_time" in eff else None,
         "sample_count": int(eff["sample_count"]) if "sample_count" in eff else None,
         "sample_size": int(eff["sample_size"]) if "sample_size" in eff else None,
         "threads": parse_threads_option(eff["threads"]) if "threads" in eff else None,
